@@ -35,6 +35,11 @@ def main():
             fn = getattr(fn, 'fget', fn)
             code = fn.__code__
             ok_file = os.path.realpath(code.co_filename) == os.path.realpath(l['file'])
+            if not ok_file and code.co_filename.startswith('<frozen '):
+                # frozen stdlib module: compare with the source file of the same installation (module.__file__)
+                import importlib
+                m = importlib.import_module(code.co_filename[len('<frozen '):-1])
+                ok_file = os.path.realpath(getattr(m, '__file__', '')) == os.path.realpath(l['file'])
             ok_line = code.co_firstlineno <= l['line'] <= code.co_firstlineno + 4
             ok_name = code.co_name == l['name']
             if not (ok_file and ok_line and ok_name):
